@@ -147,7 +147,8 @@ def gen_case(rng, kn):
         for k in range(kn.script_depth):
             out = ['ret', True]
             if c in cond_cbs and rng.random() < kn.p_cond_false:
-                out = ['ret', False]
+                # a falsy condition value: False, or None (e.g. an attribute that is not set yet)
+                out = ['ret', None if rng.random() < 0.3 else False]
             if rng.random() < kn.p_raise:
                 out = ['raise', 4 if rng.random() < 0.3 else 3, rng.randrange(3)]
             if out != ['ret', True]:
